@@ -230,9 +230,25 @@ func flushMix(c *Ctx, i int, line string) {
 	s.perturb = perturber(int64(i), uint64(3+r.Intn(6)))
 	defer s.end()
 	K := 2 + r.Intn(6)
-	if !s.setup(K) {
+	if !s.setup(K + 1) {
 		c.oracleFail("C19/setup", "session set-up failed", line)
 		return
+	}
+	// a Tflush that arrives while its target sits inside Respond (marked as answered, not yet out of the
+	// tag table): the flush chain is touched by both
+	{
+		rid := s.nreqs()
+		n0 := s.nframes()
+		want := 1
+		p := s.parkRule([]string{"respond.mark", "respond.post", "respond.queued"}[r.Intn(3)], rid, 0)
+		s.write(s.send(50, func(fc *g.Fcall) error { return g.PackTstat(fc, uint32(K+1)) }))
+		if waitc(p.reached, 2*time.Second) {
+			s.write(flushFrame(s, 51, 50))
+			want = 2
+			time.Sleep(time.Duration(500+r.Intn(1500)) * time.Microsecond)
+		}
+		close(p.release)
+		s.waitFrames(n0+want, 2*time.Second)
 	}
 	base := s.nreqs()
 	f0 := s.nframes()
